@@ -10,7 +10,7 @@ from .. import sym
 from ..evalfn import SELF, property_backing
 from ..source import AnalysisError
 from ..sym import canon
-from .common import (CORE, G, GX, plain, increments_by, loop_conditions, Roles, cur, dominates, final_value, fld, guard_subset, has_lit, hist_fill, hist_store, is_entry, lits, loops_prefix,
+from .common import (CORE, G, GX, plain, increments_by, loop_conditions, store_increment, Roles, cur, dominates, final_value, fld, guard_subset, has_lit, hist_fill, hist_store, is_entry, lits, loops_prefix,
                      mentions_field, mentions_param, postdominates, series_name, short)
 
 SEC_CLASSES = ["SecurityBase", "Security", "FixedIncomeSecurity", "CouponPayingSecurity", "HedgeSecurity", "CouponPayingHedgeSecurity"]
@@ -47,42 +47,30 @@ def _strip_all_versions(v):
 
 
 def is_inow(v, obj=SELF, guard=None):
-    """Row index is the resolved `inow`: the parameter when it is not None, else `data.index.get_loc(date)`, or 0 when the date is 0.
-    The bare parameter is accepted only where it is known not to be None (a None index would address the whole array)."""
-    v = _strip(v)
-    if v == INOW:
-        if guard is None:
-            return True
-        return sym.lit_holds(sym.sat(guard), ("isnone", INOW), False)
-    if v[0] == "ite":
-        c = canon(v[1])
-        if c[0] == "isnone" and (c[1] == INOW or is_inow(_uncanon_hint(v[3]), obj)) and canon(v[3]) == c[1]:
-            return is_inow(v[3], obj) and _inow_fallback(v[2])
-        if c[0] == "not" and c[1][0] == "isnone" and canon(v[2]) == c[1][1]:
-            return is_inow(v[2], obj) and _inow_fallback(v[3])
-    return False
-
-
-def _uncanon_hint(v):
-    return v
-
-
-def _inow_fallback(v):
-    v = _strip(v)
-    if v[0] == "ite":
-        c = canon(v[1])
-        z_date = canon(("cmp", "==", DATE, sym.ZERO))
-        if c == z_date:
-            return canon(v[2]) == canon(sym.ZERO) and _is_get_loc(v[3])
-        if c == ("not", z_date):
-            return canon(v[3]) == canon(sym.ZERO) and _is_get_loc(v[2])
-        return False
-    return _is_get_loc(v)
+    """Row index is the resolved `inow`, decided by scenarios rather than by shape: when the parameter is given the
+    index is the parameter; when it is None the index is 0 for date 0 and `data.index.get_loc(date)` otherwise.
+    (A bare `inow` where it may still be None would address the whole array.)"""
+    base = tuple(guard or ())
+    none_inow = ("isnone", INOW)
+    z_date = canon(("cmp", "==", DATE, sym.ZERO))
+    scen = [
+        (((none_inow, False),), lambda r: canon(r) == canon(INOW)),
+        (((none_inow, True), (z_date, True)), lambda r: canon(r) == canon(sym.ZERO)),
+        (((none_inow, True), (z_date, False)), _is_get_loc),
+    ]
+    for lits_, pred in scen:
+        g = sym.sat(base + lits_)
+        if sym.inconsistent(g):
+            continue
+        r = sym.restrict(v, g)
+        if not pred(r):
+            return False
+    return True
 
 
 def _is_get_loc(v):
-    v = _strip(v)
-    return v[0] == "mcall" and v[2] == "get_loc" and len(v[3]) == 1 and (v[3][0] == DATE or (v[3][0][0] == "fld" and v[3][0][2] == "now")) and v[1][0] == "attr" and v[1][2] == "index"
+    return (isinstance(v, tuple) and v and v[0] == "mcall" and v[2] == "get_loc" and len(v[3]) == 1 and (v[3][0] == DATE or (v[3][0][0] == "fld" and v[3][0][2] == "now"))
+            and v[1][0] == "attr" and v[1][2] == "index")
 
 
 def _strip(v):
@@ -290,7 +278,12 @@ def _outlay_flush(chk, pid, S, fi, host, R):
         for n in sym.walk(val):
             if n[0] == "fld" and canon(n[1]) == canon(SELF):
                 acc = n[2]
-        ok_aug = aug == "+" and acc is not None and equal(val, cur(e, SELF, acc))
+        inc = store_increment(e)
+        if inc is not None and acc is None:
+            for n in sym.walk(inc):
+                if n[0] == "fld" and canon(n[1]) == canon(SELF):
+                    acc = n[2]
+        ok_aug = inc is not None and acc is not None and equal(inc, cur(e, SELF, acc))
         if acc is not None and pid == "C07":
             accv = cur(e, SELF, acc)
             za = ("zero", sym._abs_norm(sym.to_rat(accv)))
@@ -300,6 +293,7 @@ def _outlay_flush(chk, pid, S, fi, host, R):
                    expected="unconditional, or under %s != 0" % acc, found=sym.fmt_guard(own))
         chk.ob("C07.R4", ok_aug, fi.module, host, "outlay-flush", "the pending outlay is added to the date's outlay row", where=e.where,
                expected="row += pending outlay", found="row %s= %s" % (aug or "", short(val)))
+        aug = "+" if inc is not None else aug
         if acc is None:
             continue
         resets = [w for w in S.writes(acc, SELF) if w.seq > e.seq and canon(w.value) == canon(sym.ZERO) and guard_subset(w.guard, e.guard)]
@@ -309,7 +303,7 @@ def _outlay_flush(chk, pid, S, fi, host, R):
     # no other augmented (non-idempotent) history write
     if pid == "C08":
         for e, (ser, idx, val, aug) in stores:
-            if aug is not None and series_name(ser) != R.OUTLAYS:
+            if (aug is not None or store_increment(e) is not None) and series_name(ser) != R.OUTLAYS:
                 chk.ob("C08.R2", False, fi.module, host, "non-idempotent-row:%s" % series_name(ser), "history rows are assigned, not accumulated, so that a repeated update is idempotent",
                        where=e.where, found="%s[...] %s= ..." % (series_name(ser), aug))
 
@@ -1133,7 +1127,8 @@ def _outlay_acc(chk, R):
     for e in S.events:
         hs = hist_store(e)
         if hs and series_name(hs[0]) == R.OUTLAYS:
-            for n in sym.walk(hs[2]):
+            inc = store_increment(e)
+            for n in sym.walk(inc if inc is not None else hs[2]):
                 if n[0] == "fld" and canon(n[1]) == canon(SELF):
                     return n[2]
     raise AnalysisError("SecurityBase.update no longer flushes a pending outlay into the outlays row")
